@@ -45,7 +45,8 @@ def gen(rng, i):
                      "K": rng.choice([None, None, None, 150, 200, 250, 700]), "C": rng.random() < 0.5})
     return {"flavour": "manual" if i % 2 == 0 else "pool", "jobs": jobs,
             "cancel_fn": rng.choice([None, None, "true", "false", "raise"]),
-            "poll_raise": rng.choice([0, 0, 0, 2, 3]), "poll_dur": rng.choice([0, 0, 0, 40]),
+            "poll_raise": rng.choice([0, 0, 0, 1, 2, 3]), "poll_raise_after": rng.random() < 0.5,
+            "poll_dur": rng.choice([0, 0, 0, 40]),
             "notify": rng.sample([120, 260, 410, 900], rng.choice([0, 0, 1, 2])),
             "interval": rng.choice([500, 500, 800]), "horizon": 4000, "workers": rng.choice([1, 2, 3])}
 
